@@ -25,8 +25,9 @@ def runs(rng, tier):
     else:
         for i, pol in enumerate(POLICIES):
             for k, th in enumerate((1, 4) if i % 2 == 0 else (2, 8)):
-                out.append([rng.below(1 << 30), rng.choice([0, 200, 400]), PROGS[(2 * i + k) % len(PROGS)], rng.choice([8, 16]),
-                            f'--pika:threads={th}', f'--pika:scheduler={pol}'])
+                for q in range(2):
+                    out.append([rng.below(1 << 30), rng.choice([0, 200, 400]), PROGS[(4 * i + 2 * k + q) % len(PROGS)], rng.choice([8, 16]),
+                                f'--pika:threads={th}', f'--pika:scheduler={pol}'])
         out.append([rng.below(1 << 30), 300, 'usercb', 12, '--pika:threads=4', '--pika:scheduler=local-priority-fifo'])
         out.append([rng.below(1 << 30), 300, 'twojoin', 12, '--pika:threads=3', '--pika:scheduler=local-priority-fifo'])
     return out
